@@ -5,7 +5,7 @@ W = {'rect': 0.25, 'oct': 0.35, 'share': 0.1, 'lat': 0.1, 'gp': 0.15, 'straddle'
 
 
 def run(rep, tier, seed):
-    relrun.run_rel(rep, 'C09', tier, seed, relprops.build_c09, W, 200 if tier == 'quick' else 4000,
+    relrun.run_rel(rep, 'C09', tier, seed, relprops.build_c09, W, 320 if tier == 'quick' else 4000,
                    'each group = 4 operations x (base, base with a disjoint part placed far left/right/above/below on the subject or the '
                    'clipping operand); the result must be the base result plus/without the part itself (ring sets on the exact class, '
                    'regions by the verified checker otherwise).')
